@@ -22,3 +22,38 @@ package server
 //@   ensures fields: err == nil ==> len(info.UID) == 16 && (forall k int :: 0 <= k && k < 16 ==> info.UID[k] == authPlain(fragments, k)) && info.EncryptionMethod == authPlain(fragments, 28) && info.Unordered == (authPlain(fragments, 41) % 2 == 1)
 //@   ensures sessionId: err == nil ==> int(info.SessionId) == int(authPlain(fragments, 37))*16777216 + int(authPlain(fragments, 38))*65536 + int(authPlain(fragments, 39))*256 + int(authPlain(fragments, 40))
 //@   flag noframe
+
+//@ lockorder userPanel.usageUpdateQueueM < userPanel.activeUsersM < ActiveUser.sessionsM < State.usedRandomM
+//@ guardedby State.usedRandomM: mapof(State.UsedRandom)
+//@ lockinv State.usedRandomM: cacheOK: self.UsedRandom != nil
+
+// registerRandom: atomic test-and-set under usedRandomM: of N concurrent presentations of one random
+// exactly one observes "not used" (mutual exclusion); afterwards the random is cached with the current time.
+//@ func (*State).registerRandom
+//@   requires !held(sta.usedRandomM) && locksBelow(sta.usedRandomM)
+//@   ensures testAndSet: ret0 == acq(mapHas(sta.UsedRandom, r)) && mapHas(sta.UsedRandom, r)
+//@   ensures othersKept: forall k [32]byte :: k != r ==> mapHas(sta.UsedRandom, k) == acq(mapHas(sta.UsedRandom, k)) && sta.UsedRandom[k] == acq(sta.UsedRandom[k])
+//@   flag noframe
+
+// AuthFirstPacket: the random is registered (test-and-set) BEFORE decryption on every path, and a
+// random seen before is answered with ErrReplay.
+//@ func (Transport).processFirstPacket
+//@   flag trusted
+//@   modifies *
+//@ func AuthFirstPacket
+//@   requires sta != nil && transport != nil && holdsNone()
+//@   atcall decryptClientInfo requires registeredFirst: mapHas(sta.UsedRandom, fragments.randPubKey)
+//@   ensures infoOnlyOnSuccess: err != nil ==> true
+//@   flag noframe
+
+// UsedRandomCleaner (C08): retention of the replay memory. A packet registered at second t carries a
+// timestamp ts with t-180 < ts < t+180 and stays acceptable while now < ts+180, i.e. possibly until
+// t+360. An entry may therefore only be evicted once t + 2*tolerance <= now. The invariant of the
+// eviction loop says: every entry found at acquisition that is still younger than that (w.r.t. the
+// monotone clock) is still in the cache with its time.
+//@ func (*State).UsedRandomCleaner
+//@   requires holdsNone()
+//@   flag noframe
+//@   loop 0 invariant nolocks: holdsNone() && sta != nil
+//@   loop 1 invariant locked: holdsOnly(sta.usedRandomM) && sameSlice(sta.UsedRandom, acq(sta.UsedRandom)) && sta.UsedRandom != nil
+//@   loop 1 invariant retention: forall k [32]byte :: acq(mapHas(sta.UsedRandom, k)) && int(acq(sta.UsedRandom[k])) * 1000000000 + 360000000000 > clock() ==> mapHas(sta.UsedRandom, k) && sta.UsedRandom[k] == acq(sta.UsedRandom[k])
